@@ -80,15 +80,17 @@ class Check:
             )
 
     # ------------------------------------------------------------------ verdict
+    def unlisted(self) -> list[Instance]:
+        """violations recorded so far that known_findings.json does not list"""
+        listed = {(f["property"], f["rule"], f["key"]) for f in self.known.get("findings", [])}
+        return [i for i in self.instances if not i.ok and (self.prop, i.rule, i.key) not in listed]
+
     def finish(self) -> int:
         # floors
         counts: dict[str, int] = {}
         for i in self.instances:
             counts[i.rule] = counts.get(i.rule, 0) + 1
-        unlisted = [
-            i for i in self.instances
-            if not i.ok and (self.prop, i.rule, i.key) not in {(f["property"], f["rule"], f["key"]) for f in self.known.get("findings", [])}
-        ]
+        unlisted = self.unlisted()
         for rule, floor in self.floors.items():
             if counts.get(rule, 0) < floor:
                 if unlisted:
